@@ -5,7 +5,7 @@ that the BMC instantiates per step."""
 import re
 import z3
 from mirparse import EncodingError, parse_place, place_locals
-from interp import Interp, Frame, TState, Ptr, LRef, Agg, Enum, UNIT, sx, BV
+from interp import Interp, Frame, TState, Ptr, LRef, Agg, Enum, UNIT, sx, BV, decode_cell
 
 _LIVE = {}
 _ADDR_TAKEN = {}
@@ -69,7 +69,7 @@ def state_key(st):
             lv = live_at(fr.fn, fr.bb, fr.i)
         else:
             lv = live_at(fr.fn, fr.bb, len(fr.fn.blocks[fr.bb]) - 1)
-        extra = [l for l in fr.loc if l.startswith("_clo")]
+        extra = [l for l in fr.loc if l.startswith("_clo") or l.startswith("__mr:")]
         parts.append((fr.fn.name, fr.bb, fr.i, fr.ret_xform or "", tuple((l, sx(fr.loc[l])) for l in sorted(set(lv) | set(extra)) if l in fr.loc)))
     return tuple(parts)
 
@@ -100,6 +100,11 @@ class ThreadGraph:
             for c, wgt in nxt:
                 if d + wgt < dist.get(c, 1 << 30): dist[c] = d + wgt; heapq.heappush(h, (d + wgt, c))
         return self.longest_path()
+
+    def step_budget(self):
+        """steps granted to this thread when sizing the global bound: its longest acyclic path, capped at twice the uncontended
+        run + 4 (retry ladders such as ogre_sync::lock's ten attempts would otherwise inflate the bound)"""
+        return min(self.longest_path(), 2 * self.shortest_path() + 4)
 
     def longest_path(self):
         """longest acyclic path (in visible nodes) from the root to a done node -- used to size the step bound"""
@@ -136,7 +141,9 @@ def build_thread(interp, tid, calls, mem):
         if kind in ("aload", "afadd", "afsub", "aswap"):
             srt = mem[desc[1]]["sort"]; r = reg("r", srt); n.rvars = [r]; return r
         if kind == "pload":
-            srt = mem[desc[1]]["sort"]; r = reg("r", srt); n.rvars = [r]; return r
+            srt = mem[desc[1]]["sort"]; r = reg("r", srt); n.rvars = [r]
+            if mem[desc[1]].get("codec"): return decode_cell(mem[desc[1]]["codec"], r)
+            return r
         if kind == "acas":
             srt = mem[desc[1]]["sort"]; ok = reg("ok", z3.BoolSort()); old = reg("old", srt); n.rvars = [ok, old]
             return Enum("Result", z3.If(ok, BV(64, 0), BV(64, 1)), {0: [old], 1: [old]})
